@@ -7,6 +7,9 @@ open Afkak.Consumer Afkak.Monitor Afkak.Consts
 
 variable [EnvHyp]
 
+-- every leaf lemma checks nine invariant components on every path of a handler
+set_option maxHeartbeats 800000
+
 /-- Between events: the invariant holds and the processor is not executing. -/
 def Top (cfg : Cfg) (s : St) : Prop :=
   G cfg s ∧ s.frame = none ∧ (runR C03.ackStep {} s.out).lc = s.lastCommitted
@@ -419,9 +422,10 @@ theorem step_top (cfg : Cfg) (e : Ev) {s : St} (hs : Top' cfg s) (he : EnvHyp.sa
         exact ⟨h2.1, h2.2.trans hs.2.1, Or.inr h3⟩
 
 theorem init_top (cfg : Cfg) (script : List PEntry) : Top' cfg (init cfg script) := by
-  refine ⟨⟨?_, ?_, ?_, ?_, ?_, ?_, ?_, fun _ => ?_⟩, rfl, Or.inr rfl⟩
+  refine ⟨⟨?_, ?_, ?_, ?_, ?_, ?_, ?_, ?_, fun _ => ?_⟩, rfl, Or.inr rfl⟩
   · constructor <;> simp [init, oifOf]
   · constructor <;> simp [init, activeReq, retryPending]
+  · constructor <;> simp [init]
   · constructor <;> simp [init]
   · constructor <;> simp [init]
   · constructor <;> simp [init]
